@@ -122,6 +122,7 @@ PURE_CALLS = _default_pure_calls()
 
 class Walker:
     def __init__(self, F, body, *, on_stmt=None, on_term=None, on_edge=None, pure_calls=None,
+                 after_stmt=None, call_result=None,
                  max_states=400000, arith=False, ordered_marks=False, want_ret=False,
                  inline_eq_derive=True, max_marks=64):
         self.F = F
@@ -129,6 +130,8 @@ class Walker:
         self.on_stmt = on_stmt
         self.on_term = on_term
         self.on_edge = on_edge
+        self.after_stmt = after_stmt
+        self.call_result = call_result
         self.pure = dict(PURE_CALLS)
         if pure_calls:
             self.pure.update(pure_calls)
@@ -169,7 +172,40 @@ class Walker:
                     key += ".?"
         return key
 
-    def const_val(self, c):
+    def promoted_env(self, idx):
+        """Evaluate promoted constant #idx of the enclosing function: returns (value of _0, env)."""
+        cache = getattr(self, "_prom_cache", None)
+        if cache is None:
+            cache = self._prom_cache = {}
+        if idx in cache:
+            return cache[idx]
+        res = (None, {})
+        proms = self.body.fn.promoted
+        if idx < len(proms) and self.body.promoted_index is None:
+            w = Walker(self.F, proms[idx], want_ret=True)
+            w._full_ret = True
+            outs = w.run(0, {})
+            rets = [o for o in outs if o[0] == "return"]
+            if len(rets) == 1 and len(outs) == 1:
+                e = dict(rets[0][2])
+                pre = "P%d:" % idx
+
+                def tr(v):
+                    if isinstance(v, tuple) and v[0] == "ref":
+                        return ("ref", pre + v[1])
+                    return v
+                env2 = {pre + k: tr(v) for k, v in e.items()}
+                res = (env2.get(pre + "0"), env2)
+        cache[idx] = res
+        return res
+
+    def const_val(self, c, env=None):
+        if "promoted" in c and env is not None:
+            v, e2 = self.promoted_env(c["promoted"])
+            if v is not None:
+                for k, vv in e2.items():
+                    env.setdefault(k, vv)
+                return v
         if "v" in c:
             return c["v"]
         if "str" in c:
@@ -182,7 +218,7 @@ class Walker:
     def val(self, env, op):
         k = op["k"]
         if k == "const":
-            return self.const_val(op)
+            return self.const_val(op, env)
         if k in ("copy", "move"):
             key = self.norm(env, op)
             return env.get(key)
@@ -263,9 +299,11 @@ class Walker:
                 src = self.norm(env, x)
                 if src != dst:
                     env.copy_tree(src, dst)
+                    if x["k"] == "move" and not x["p"]:
+                        env.kill(src)
                 return
             env.kill(dst)
-            v = self.const_val(x) if x["k"] == "const" else None
+            v = self.const_val(x, env) if x["k"] == "const" else None
             if v is not None:
                 env[dst] = v
             return
@@ -402,8 +440,12 @@ class Walker:
                         self._add_mark(marks_l, m)
                 if s["k"] == "assign":
                     self.assign(env, s["p"], s["rv"])
+                    if self.after_stmt:
+                        self.after_stmt(self, bb, idx, s, env)
                 elif s["k"] == "setdiscr":
                     env.kill(self.norm(env, s["p"]))
+                elif s["k"] == "dead":
+                    env.kill(str(s["l"]))
             if stopped:
                 outcomes.add(("stop", self._freeze_marks(marks_l), None))
                 continue
@@ -424,7 +466,10 @@ class Walker:
                 ret = None
                 kind = t["k"]
                 if kind == "return" and self.want_ret:
-                    ret = tuple(sorted((k, v) for k, v in env.items() if _prefix_match(k, "0")))
+                    if getattr(self, "_full_ret", False):
+                        ret = tuple(sorted(env.items()))
+                    else:
+                        ret = tuple(sorted((k, v) for k, v in env.items() if _prefix_match(k, "0")))
                 outcomes.add((kind if kind in ("return", "unreachable") else "diverge:" + kind,
                               self._freeze_marks(marks_l), ret))
                 continue
@@ -494,10 +539,15 @@ class Walker:
                 e2 = Env(env)
                 if name is not None:
                     e2[src] = ("var", adt, name)
-                    e2[key] = av
+                    if x["k"] == "move" and not x["p"]:
+                        e2.pop(key, None)
+                    else:
+                        e2[key] = av
                     arm_names.append(name)
                 out.append((b, e2))
             e3 = Env(env)
+            if x["k"] == "move" and not x["p"]:
+                e3.pop(key, None)
             if adt and arm_names:
                 allv = set(self.F.variants(adt)) if adt in self.F.adts else None
                 ex = frozenset(arm_names) | excluded
@@ -509,6 +559,10 @@ class Walker:
             return out
         excluded = v[1] if isinstance(v, tuple) and v[0] == "not" else frozenset()
         arm_vals = []
+        moved = x["k"] == "move" and not x["p"]
+        if moved and key is not None:
+            env.kill(key)
+            key = None
         for av, b in arms:
             if av in excluded:
                 continue
@@ -538,9 +592,8 @@ class Walker:
                 result = fn(self, env, args)
             elif self.inline_eq_derive and name.endswith(" as core::cmp::PartialEq>::eq"):
                 result = self._derived_eq(env, args)
-            elif name == "<T as core::convert::Into>::into" or name == "<T as core::convert::From>::from":
-                # identity conversions on tracked scalars (u8 -> u32 etc. resolve elsewhere)
-                pass
+        if result is None and self.call_result is not None:
+            result = self.call_result(self, bb, t, env, args)
         # a &mut reference passed to an unknown call may modify its referent
         if result is None or True:
             for x, v in zip(t["xs"], args):
@@ -569,10 +622,12 @@ class Walker:
             a, b = vs
             if a[1] == b[1]:
                 adt = self.F.adts.get(a[1])
-                if adt and all(len(v["fields"]) == 0 for v in adt["variants"]):
-                    return int(a[2] == b[2])
                 if a[2] != b[2]:
                     return 0
+                if adt:
+                    for v in adt["variants"]:
+                        if v["n"] == a[2] and len(v["fields"]) == 0:
+                            return 1
         return None
 
 
